@@ -741,4 +741,8 @@ def _lookup_keys(table, keys):
     ("C18", "break", ["C18-R4"], N2P, "    edof = np.array([[node, int(i)] for node, arg in dof for i in str(arg)])\n", "    edof = np.array([[node, int(i)] for node, arg in sorted(dof.tolist()) for i in str(arg)])\n", "expanddof: request rows sorted by id"),
     ("C18", "neutral", [], N2P, "    edof = np.array([[node, int(i)] for node, arg in dof for i in str(arg)])\n", "    edof = np.array([[node, int(i)] for node, arg in dof for i in list(str(arg))])\n", "expanddof: digits through list()"),
     ("C18", "neutral", [], N2P, "    edof = np.array([[node, int(i)] for node, arg in dof for i in str(arg)])\n", "    rows = []\n    for node, arg in dof:\n        for ch in str(arg):\n            rows.append([node, int(ch)])\n    edof = np.array(rows)\n", "expanddof: digit expansion as a loop nest"),
+    ("C18", "break", ["C18-R2"], N2P, "    if np.any(~pvmajor & pvminor):\n        raise ValueError(\"`minorset`", "    if not (minor & major) and np.any(~pvmajor & pvminor):\n        raise ValueError(\"`minorset`", "mksetpv: DOF test skipped whenever the two masks share a bit"),
+    ("C18", "neutral", [], N2P, "    if np.any(~pvmajor & pvminor):\n        raise ValueError(\"`minorset`", "    if (minor & major) != minor and np.any(~pvmajor & pvminor):\n        raise ValueError(\"`minorset`", "mksetpv: DOF test skipped when the minor mask lies inside the major mask"),
+    ("C18", "break", ["C18-R2"], N2P, "    if np.any(~pvmajor & pvminor):\n        raise ValueError(\"`minorset`", "    if (minor & major) != major and np.any(~pvmajor & pvminor):\n        raise ValueError(\"`minorset`", "mksetpv: DOF test skipped when the MAJOR mask lies inside the minor mask"),
+    ("C18", "neutral", [], N2P, "    if np.any(~pvmajor & pvminor):\n        raise ValueError(\"`minorset`", "    if (minor | major) != major and np.any(~pvmajor & pvminor):\n        raise ValueError(\"`minorset`", "mksetpv: mask containment written with |"),
 ]
